@@ -622,6 +622,34 @@ def main(b: bool, c: bool) -> None:
         x(q)
     discard(q)
 ''')
+P("ok_str_comptime_instances_pull_in_definitions", '''
+@guppy
+def label(x: int, s: str @comptime) -> int:
+    result(s, x)
+    return x + 1
+
+@guppy
+def tag(x: int, s: str @comptime) -> int:
+    return label(x, s) * 2
+
+@guppy
+def main(x: int) -> int:
+    return tag(x, "alpha") + tag(x, "beta") + tag(x, "gamma") + tag(x, "delta")
+''')
+P("ok_mixed_comptime_instances", '''
+@guppy
+def leaf(x: int, s: str @comptime, k: int @comptime) -> int:
+    result(s, x + k)
+    return x
+
+@guppy
+def mid(x: int, s: str @comptime) -> int:
+    return leaf(x, s, 1) + leaf(x, s, 2)
+
+@guppy
+def main(x: int) -> int:
+    return mid(x, "pq") + mid(x, "rs") + mid(x, "tu")
+''')
 P("ok_closure_captures_used_in_several_blocks", '''
 @guppy
 def main(a: int, b: int, c: int, f: bool) -> int:
@@ -770,9 +798,17 @@ def _explore_program(name, src, full_limit, kdev):
     if k is None and res.states <= CROSSCHECK_STATES:
         # small program: the stateless replay strategy must see the same outcomes
         alt = schedx.explore_program_schedules(src, "main", None, strategy="replay")
-        crosscheck = (set(alt["outcomes"]) == set(outcomes)
-                      and alt["result"].states == res.states
-                      and alt["result"].transitions == res.transitions)
+        if set(alt["outcomes"]) != set(outcomes):
+            # the same program explored twice in ONE process over the same set of worklist orders gives
+            # different outcomes: something other than the input decides the output
+            crosscheck = "outcomes-differ"
+            extra = sorted(set(alt["outcomes"]) ^ set(outcomes))
+            outcomes = dict(outcomes)
+            for o in extra:
+                outcomes.setdefault(o, alt["outcomes"].get(o, ()))
+        else:
+            crosscheck = (alt["result"].states == res.states
+                          and alt["result"].transitions == res.transitions)
     ordered = sorted(outcomes.items(), key=lambda kv: (sum(len(w) for w in kv[1]),
                                                         sum(c != 0 for w in kv[1] for c in w), kv[1]))
     return {
@@ -808,7 +844,9 @@ def part1_worklists(ctx):
         cov["nontrivial"] += r["transitions"] >= r["states"]
         if r["crosscheck"] is not None:
             cov["crosschecked"] += 1
-            if not r["crosscheck"]:
+            if r["crosscheck"] == "outcomes-differ":
+                pass        # reported below as an order / history dependent outcome (len(outs) > 1)
+            elif not r["crosscheck"]:
                 errors.append({"name": r["name"], "harness_error":
                                "replay and in-place strategies disagree", "tb": ""})
         outs = [tuple(o) for o, _ in r["outcomes"]]
@@ -820,7 +858,7 @@ def part1_worklists(ctx):
         cov["per_program"][r["name"]] = {"outcomes": len(outs), "leaves": r["leaves"],
                                          "k": r["k"], "max_blocks": r["max_blocks"],
                                          "states": r["states"]}
-        if len(cov["samples"]) < 4 and r["leaves"] > 1:
+        if len(cov["samples"]) < 4 and r["transitions"] >= r["states"] and r["states"] > 200:
             cov["samples"].append({"program": r["name"], "max_blocks": r["max_blocks"],
                                    "deviation_bound": r["k"], "states": r["states"],
                                    "pipeline_runs_to_completion": r["leaves"],
